@@ -101,6 +101,7 @@ def _size_key(line):
 
 def show(e):
     """compact human readable form of a vector line"""
+    if "b" not in e and "rep" not in e: return dict(e)
     if "rep" in e:
         txt = "%s + %d x %02X + %s" % (bytes(e["pre"]).hex(" ").upper() or "''", e["n"], e["rep"], bytes(e["post"]).hex(" ").upper() or "''")
     else:
@@ -110,6 +111,14 @@ def show(e):
 
 
 # ------------------------------------------------------------------------------------------ one shard
+def _batch_size():
+    with open(os.path.join(vlib.SPEC, "TraceUtf8.tla")) as f:
+        return int(re.search(r"^Batch\s*==\s*(\d+)", f.read(), re.M).group(1))
+
+
+BATCH = _batch_size()       # lines judged per TLC state, for the all-lines-consumed cross-check
+
+
 def _shard(args):
     """TLC on one result file + classification of its VIOL lines (runs in a worker process)"""
     trace, tlcout, heap = args          # heap: java options
@@ -135,7 +144,7 @@ def _shard(args):
         if line.startswith("VIOL "):
             p = line.split()
             viol.append((int(p[1]), p[2]))
-    batches = (nlines + 499) // 500
+    batches = (nlines + BATCH - 1) // BATCH
     consumed = (rc == 0 and "REJECTED" not in out and "No error has been found" in out and dist == batches + 1)
     if not consumed:
         tail = "\n".join(l for l in out.splitlines() if "VIOL " not in l)[-3000:]
@@ -152,8 +161,11 @@ def _shard(args):
         for (i, clause) in viol:
             if clause.startswith("SELFTEST"):
                 selftest.append((clause, raw.get(i, "?").strip())); continue
-            if i not in cache: cache[i] = vec_bytes(json.loads(raw[i]))
-            key = clause + "|" + classify(cache[i], clause)
+            if clause.startswith("C16_c"):                     # the constants line, not a string
+                key = clause + "|library-constant"
+            else:
+                if i not in cache: cache[i] = vec_bytes(json.loads(raw[i]))
+                key = clause + "|" + classify(cache[i], clause)
             g = groups.setdefault(key, dict(count=0, lines=[]))
             g["count"] += 1
             if len(g["lines"]) < MAX_EXAMPLES: g["lines"].append(raw[i])
